@@ -540,6 +540,9 @@ def faults(site):
         return [("out-of-scope-name:" + n, n) for n in site.extra]
     if site.kind == "tail":
         return [("path-without-return:" + t, t) for t in site.extra]
+    if site.family.startswith("T-ctr-"):
+        w = {"T-ctr-int": ["0.5", "B1", "g_fl", "g_big"], "T-ctr-byte": ["1", "0.5", "B1", "g_int"], "T-ctr-bigint": ["0.5", "g_fl"], "T-ctr-float": []}[site.family]
+        return [("counter-of-another-type:" + x, x) for x in w] + [("near-miss-type:true", "true"), ("near-miss-type:\"s\"", "\"s\"")]
     if site.family.startswith("T-oa-"):
         # right operands the operator accepts but whose result is of another type than the target (plus two it does not accept)
         w = {"T-oa-int": ["1.5", "B1", "g_fl", "g_big"], "T-oa-byte": ["1", "1.5", "B1", "g_int"], "T-oa-bigint": ["1.5", "g_fl"], "T-oa-float": []}[site.family]
@@ -931,6 +934,50 @@ def opassign_matrix():
     return out
 
 
+# a from loop that REUSES an existing variable as its counter assigns `start + k * step` to it: a step that promotes the start
+# to another kind than the variable's must be rejected like any other assignment of that kind
+COUNTER_TYPES = {"T-ctr-int": ("int", "0", "3", "1"), "T-ctr-byte": ("byte", "0b0", "0b11", "0b1"), "T-ctr-bigint": ("bigint", "B0", "B3", "B1"), "T-ctr-float": ("float", "0.5", "3.5", "0.5")}
+
+
+def counter_matrix():
+    out = []
+    for fam, (ty, start, end, step) in COUNTER_TYPES.items():
+        for place in ("module", "function", "method", "after-use"):
+            for bound in ("to", "through"):
+                b = Builder(None, "main.ms")
+                b.add("print \"@START\"")
+                loop = lambda ind: [ind + "from %s %s %s step %s, v1 {" % (start, bound, end, b.site(fam, step)), ind + "\tprint v1", ind + "}"]
+                if place in ("module", "after-use"):
+                    b.add("v1: %s = %s" % (ty, start))
+                    if place == "after-use":
+                        b.add("w1: %s = v1" % ty)
+                    for l in loop(""):
+                        b.add(l)
+                    b.add("k1: %s = v1" % ty)
+                elif place == "function":
+                    b.add("cf = fn() -> %s {" % ty)
+                    b.add("\tv1: %s = %s" % (ty, start))
+                    for l in loop("\t"):
+                        b.add(l)
+                    b.add("\treturn v1")
+                    b.add("}")
+                    b.add("print cf()")
+                else:
+                    b.add("class Cm {")
+                    b.add("\tfn run(self) -> %s {" % ty)
+                    b.add("\t\tv1: %s = %s" % (ty, start))
+                    for l in loop("\t\t"):
+                        b.add(l)
+                    b.add("\t\treturn v1")
+                    b.add("\t}")
+                    b.add("}")
+                    b.add("cm = Cm()")
+                    b.add("print cm.run()")
+                b.add("print \"@END\"")
+                out.append({"files": {"main.ms": PRELUDE + "\n".join(b.lines) + "\n"}, "sites": list(b.sites), "matrix": "counter|%s|%s|%s" % (place, ty, bound)})
+    return out
+
+
 def scope_matrix():
     """a name that IS declared - but in a scope that does not reach the place of use (another branch of the same if, a loop body
     that has ended, a function's locals and parameters seen from outside, an inner block) must be diagnosed like an unknown name.
@@ -974,7 +1021,7 @@ def scope_matrix():
 
 
 def enumerated(tier, seed):
-    return position_matrix() + scope_matrix() + opassign_matrix() + return_path_matrix()
+    return position_matrix() + scope_matrix() + opassign_matrix() + return_path_matrix() + counter_matrix()
 
 
 @st.composite
